@@ -50,6 +50,9 @@ def corpus():
     def scr(i, **scripts): return dict(id=i, name="S%d" % i, title=None, text="t%d" % i, scripts=scripts)
     yield with_cc(dict(op="machine", mode="tame", width=80, handlers=[], init=[["schedule", 0, None]], stdin=["a", "b", "c"], deliver_at=[],
                        screens=[scr(0, input=[dict(acts=[["push_modal", 1, None]], ret="PROCESSED"), dict(ret="q")]), scr(1, setup=[dict(ret="fail_before")])]))
+    # witness of the fixed finding F11: while the modal screen 1 is on top a CloseScreenSignal of another screen (2) is dispatched: the request is refused, nothing is popped
+    yield with_cc(dict(op="machine", mode="tame", width=80, handlers=[], init=[["schedule", 0, None]], stdin=["c", "c"], deliver_at=[], exc_handler=True,
+                       screens=[scr(0, show=[dict(acts=[["push_modal", 1, None]])]), scr(1, show=[dict(acts=[["close_sig", 2], ["sched_redraw"]])]), scr(2)]))
 
 
 def monitor(case, obs):
